@@ -95,6 +95,26 @@ func idxOf(label string) int {
 func Misuses() []Misuse {
 	base := append(misusesFixed(), collisionMisuses()...)
 	out := append([]Misuse{}, base...)
+	// sibling family: every rule whose offending message consists of the offending field alone, again with unrelated
+	// sibling fields before and after it (a validation must not depend on the offender being the only field)
+	for _, mu := range base {
+		mu := mu
+		if mu.Build == nil {
+			continue
+		}
+		probe, _ := mu.Build()
+		if len(probe) == 0 || len(probe[0].Fields) != 1 || len(probe[0].Oneofs) > 0 {
+			continue
+		}
+		sib := mu
+		sib.Rule = mu.Rule + "_with_siblings"
+		sib.Build = func() ([]*spec.Message, []*spec.Enum) {
+			ms, es := mu.Build()
+			ms[0].Fields = append(append([]*spec.Field{spec.F("aa_before", "string")}, ms[0].Fields...), spec.F("zz_after", "int32"))
+			return ms, es
+		}
+		out = append(out, sib)
+	}
 	// declaration-order family: every message-level rule again with the fields of the offending message declared in reverse
 	// order (a rule must not depend on which of two conflicting fields comes first); oneof members stay consecutive.
 	for _, mu := range base {
